@@ -7,8 +7,11 @@ from ..report import Check
 
 
 def take(chk, prog, src: str, pred, what: str, floor: int) -> int:
+    if getattr(chk, "nested", False):
+        return 0  # obligations are taken one level deep only (a source check run for another property does not pull in its own imports: no cycles)
     mod = importlib.import_module(f"sa.props.{src}")
     tmp = Check(src, chk.tier, chk.seed, write_evidence=False)
+    tmp.nested = True
     mod.run(tmp, prog)
     viol = {(v["rule"], v["instance"]): v for v in tmp.violations}
     n = 0
